@@ -108,6 +108,19 @@ chk("C04", "model_checking",
     "trace-validated by TLC", "DESIGN.md section 4, C04")
 
 
+chk("C13", "model_checking",
+    "15 kinds of failing construct x 7 contexts (top level, block, if body, loop body, function, two call levels "
+    "deep, if condition) after random preceding code (blank lines, comments, lets, multi-line functions, filter "
+    "statements, string literals spanning lines, CRLF line ends); the renderer records the line of every statement, "
+    "the real pipeline runs the text and TLC validates the reported line against RefSem (error line = line of the "
+    "statement holding the failing construct). Failing constructs in filter actions are run end to end through the "
+    "binary.",
+    "Constructs are written on one line (as the property requires); message texts are not compared; the filter-action "
+    "slice compares against the renderer's line directly.",
+    "TLA+ reference semantics (error line rule) evaluated by TLC; recorded executions trace-validated by TLC",
+    "DESIGN.md section 4, C13")
+
+
 def main():
     props = [json.loads(l)["id"] for l in open(os.path.join(VERIF, "properties.jsonl"))]
     na = [{"property_id": p, "reason": NOT_APPLICABLE.get(p, "check not built yet in this round (planned, see DESIGN.md section 8)")}
